@@ -244,14 +244,15 @@ impl Stream for HandshakeService {
                             *state = HandshakeState::SinkReady;
                             continue;
                         }
-                        Poll::Ready(Err(_)) =>
+                        Poll::Ready(Err(_)) => {
                             return Poll::Ready(Some((
                                 *peer,
                                 HandshakeEvent::NegotiationError {
                                     peer: *peer,
                                     direction: *direction,
                                 },
-                            ))),
+                            )))
+                        }
                         Poll::Pending => continue 'outer,
                     },
                     HandshakeState::SinkReady => {
@@ -260,14 +261,15 @@ impl Stream for HandshakeService {
                                 *state = HandshakeState::HandshakeSent;
                                 continue;
                             }
-                            Err(_) =>
+                            Err(_) => {
                                 return Poll::Ready(Some((
                                     *peer,
                                     HandshakeEvent::NegotiationError {
                                         peer: *peer,
                                         direction: *direction,
                                     },
-                                ))),
+                                )))
+                            }
                         }
                     }
                     HandshakeState::HandshakeSent => match pinned.poll_flush(cx) {
@@ -281,14 +283,15 @@ impl Stream for HandshakeService {
                                 continue 'outer;
                             }
                         },
-                        Poll::Ready(Err(_)) =>
+                        Poll::Ready(Err(_)) => {
                             return Poll::Ready(Some((
                                 *peer,
                                 HandshakeEvent::NegotiationError {
                                     peer: *peer,
                                     direction: *direction,
                                 },
-                            ))),
+                            )))
+                        }
                         Poll::Pending => continue 'outer,
                     },
                     HandshakeState::ReadHandshake => match pinned.poll_next(cx) {
